@@ -1,3 +1,4 @@
+import H2.Proofs.ServerRecvFull
 import H2.Proofs.Recv
 /-!
 # C14 (server half) — the server hands flow-control credit back
@@ -79,5 +80,108 @@ one more octet takes it below half: a single connection increment of 2 097 153, 
 example : let st := run init [.accepted 1 2097152 false, .accepted 1 1 false]
     st.trace = [.wu 1 2097152, .wu 1 1, .wu 0 2097153] ∧ outstanding st = 0 ∧ st.received = 2097153 := by decide
 example : (run init [.accepted 1 10 false, .dropped 3 5, .connErr 5 7, .accepted 1 4 true]).trace = [.wu 1 10] := by decide
+
+end H2.Props.C14
+
+
+/-! # C14 (server half) on the FULL server model: credit conservation
+
+NEEDS one more import at the head of this file: `import H2.Proofs.ServerRecvFull`.
+
+Everything below is about `H2/Server/Model.lean` itself, for EVERY configuration and EVERY event list; the abstract model
+`H2.Server.Abs.Recv` above is not involved. `dataFwd fwd` = flow-controlled octets (`fr.length`, padding included) of the
+DATA frames on a stream among the frames the read loop forwarded; `cred0 outs` = sum of the increments of the
+`WINDOW_UPDATE(0, inc)` written (the handshake's own WINDOW_UPDATE is not part of `runOuts`).
+
+Step level: `full_consume_conn`, `full_stream_credit_at_once`, `full_no_credit_on_final_frame`, `full_data_is_charged`.
+Run level: `full_recv_ledger`, `full_recv_conservation`, `full_never_overcredits`, `full_no_zero_increment`.
+The starvation-freedom reading ("the peer can always send its next octet") and the client half stay where they were. -/
+namespace H2.Props.C14
+open H2.Server
+
+/-- **`consumeConnWindow`** (step level): nothing for an empty frame; otherwise `recvWin` goes down by `n`; when that takes it
+below half of 4 MiB exactly one `WINDOW_UPDATE(0, inc)` is written with `inc = 4 MiB − (recvWin − n) > 0` and `recvWin` is
+4 MiB again -/
+theorem full_consume_conn (r : R) (n : Nat) :
+    (n = 0 → consumeConnWindow r n = r) ∧
+    (n ≠ 0 → r.s.recvWin - n < (H2.Gen.c_serverMaxWindow : Int) / 2 →
+      (consumeConnWindow r n).out = r.out ++ [.wu 0 ((H2.Gen.c_serverMaxWindow : Int) - (r.s.recvWin - n)).toNat] ∧
+      (consumeConnWindow r n).s.recvWin = H2.Gen.c_serverMaxWindow ∧
+      0 < ((H2.Gen.c_serverMaxWindow : Int) - (r.s.recvWin - n)).toNat) ∧
+    (n ≠ 0 → ¬ r.s.recvWin - n < (H2.Gen.c_serverMaxWindow : Int) / 2 →
+      (consumeConnWindow r n).out = r.out ∧ (consumeConnWindow r n).s.recvWin = r.s.recvWin - n) :=
+  consumeConnWindow_spec r n
+
+/-- **stream credit in full and at once** (step level): a non-empty frame that does not end its stream is answered with
+`WINDOW_UPDATE(stream, n)` for its whole length before the connection window is looked at -/
+theorem full_stream_credit_at_once (r : R) (st : Strm) (fr : H2.Frame.Frame) (n : Nat) (hn : n ≠ 0)
+    (hes : H2.Frame.hasFlag fr.flags H2.Gen.c_FlagEndStream = false) :
+    consumeRecvWindow r st fr n = consumeConnWindow (r.emit (.wu st.id n)) n :=
+  consumeRecvWindow_stream_credit r st fr n hn hes
+
+/-- … and the frame that ends the stream gets none -/
+theorem full_no_credit_on_final_frame (r : R) (st : Strm) (fr : H2.Frame.Frame) (n : Nat)
+    (hes : H2.Frame.hasFlag fr.flags H2.Gen.c_FlagEndStream = true) :
+    consumeRecvWindow r st fr n = consumeConnWindow r n :=
+  consumeRecvWindow_final r st fr n hes
+
+/-- **every DATA frame the model accepts, drops or ignores is charged** (step level). `Charged r r' n`: `r'` is `r` with some
+outputs `l` appended, `r'.recvWin + n = r.recvWin + (connection credit written in l)`, no WINDOW_UPDATE of `l` has
+increment 0, `l` has no DATA. (1) a DATA frame for a stream that may receive — in the table, headers finished, neither
+half-closed nor closed — is charged `fr.length` whether it is accepted or dropped by the request-body limit (then the
+error is RST_STREAM(ENHANCE_YOUR_CALM)); (2) a DATA frame for a stream this side has reset is ignored and charged. -/
+theorem full_data_is_charged (r : R) (fr : H2.Frame.Frame) (ht : fr.typ = H2.Gen.c_FrameData) :
+    (∀ uid st, r.getStrm uid = some st → verifyState st fr = none → st.headersFinished = true →
+      ¬ st.state.rank ≥ StState.halfClosed.rank → st.id ≠ 0 →
+        Charged r (handleFrame r uid fr).1 fr.length ∧
+          ((handleFrame r uid fr).2 = none ∨ (handleFrame r uid fr).2 = some (.reset H2.Gen.c_EnhanceYourCalm))) ∧
+    (∀ wc, r.s.resetByUs.contains fr.stream = true →
+      unknownStream r fr wc = (consumeConnWindow r fr.length, none) ∧ Charged r (unknownStream r fr wc).1 fr.length) :=
+  ⟨fun uid st hg hv hf hr hid => handleFrame_data_charged r uid fr st hg hv ht hf hr hid,
+    fun wc hc => ⟨unknownStream_data_ignored r fr wc hc ht, unknownStream_data_charged r fr wc hc ht⟩⟩
+
+/-- **receive ledger** (run level): `recvWin + DATA octets forwarded = 4 MiB + credit written + lost`, where `lost` (the
+octets of DATA frames answered with a connection error) is 0 as long as no GOAWAY has been written; and
+`4 MiB / 2 ≤ recvWin ≤ 4 MiB` always -/
+theorem full_recv_ledger (cfg : Cfg) (evs : List Event) :
+    (∃ lost : Nat, (run cfg evs).1.recvWin + (dataFwd (runFwd cfg evs) : Int) =
+        (H2.Gen.c_serverMaxWindow : Nat) + (cred0 (runOuts cfg evs) : Int) + (lost : Int) ∧
+      (cnt .goAway (runOuts cfg evs) = 0 → lost = 0)) ∧
+    ((H2.Gen.c_serverMaxWindow : Nat) : Int) / 2 ≤ (run cfg evs).1.recvWin ∧
+    (run cfg evs).1.recvWin ≤ ((H2.Gen.c_serverMaxWindow : Nat) : Int) :=
+  recv_ledger cfg evs
+
+/-- **credit conservation** (run level, no connection error so far): `recvWin + (received − credited) = serverMaxWindow`;
+what is outstanding is never negative and never more than half the window -/
+theorem full_recv_conservation (cfg : Cfg) (evs : List Event) (hga : cnt .goAway (runOuts cfg evs) = 0) :
+    (run cfg evs).1.recvWin + ((dataFwd (runFwd cfg evs) : Int) - (cred0 (runOuts cfg evs) : Int)) =
+      (H2.Gen.c_serverMaxWindow : Nat) ∧
+    0 ≤ (dataFwd (runFwd cfg evs) : Int) - (cred0 (runOuts cfg evs) : Int) ∧
+    (dataFwd (runFwd cfg evs) : Int) - (cred0 (runOuts cfg evs) : Int) ≤
+      ((H2.Gen.c_serverMaxWindow : Nat) : Int) - ((H2.Gen.c_serverMaxWindow : Nat) : Int) / 2 :=
+  recv_conservation cfg evs hga
+
+/-- **never above what was received** (run level, any run): the connection credit written never exceeds the DATA octets
+forwarded — the peer's view of the connection window never exceeds what the handshake announced -/
+theorem full_never_overcredits (cfg : Cfg) (evs : List Event) : cred0 (runOuts cfg evs) ≤ dataFwd (runFwd cfg evs) :=
+  recv_never_overcredits cfg evs
+
+/-- **never an increment of 0** (run level): no WINDOW_UPDATE of any run, on a stream or on the connection, has increment 0 -/
+theorem full_no_zero_increment (cfg : Cfg) (evs : List Event) (sid inc : Nat) (h : Out.wu sid inc ∈ runOuts cfg evs) :
+    0 < inc :=
+  H2.Server.no_zero_increment cfg evs sid inc h
+
+/-! non-vacuity: SETTINGS; HEADERS(1, POST /); DATA(1, 2 octets) — WINDOW_UPDATE(1, 2); DATA(1, 3 octets, END_STREAM) — no
+stream credit, the request is dispatched. 5 octets are outstanding on the connection: 4 194 299 + 5 = 4 194 304 + 0. -/
+def fullRecvRun : List Event :=
+  [.bytes [0, 0, 0, 4, 0, 0, 0, 0, 0],
+   .bytes [0, 0, 3, 1, 4, 0, 0, 0, 1, 0x83, 0x86, 0x84],
+   .bytes [0, 0, 2, 0, 0, 0, 0, 0, 1, 0x68, 0x69],
+   .bytes [0, 0, 3, 0, 1, 0, 0, 0, 1, 0x68, 0x69, 0x6a]]
+
+example : (run {} fullRecvRun).1.recvWin = 4194299 ∧ dataFwd (runFwd {} fullRecvRun) = 5 ∧
+    cred0 (runOuts {} fullRecvRun) = 0 ∧ cnt .goAway (runOuts {} fullRecvRun) = 0 ∧
+    (runOuts {} fullRecvRun).map Out.toString = ["S(ack)", "WU(1,2)", "dispatch(1,m=504f5354,p=2f,a=-,f=-,b=5:524:106)"] := by
+  decide +kernel
 
 end H2.Props.C14
